@@ -134,12 +134,10 @@ def specContent (conv : Char) (opts : Option Text) (ev : Event) : Text :=
 /-- `apply_padding`; `none` = panic -/
 def applyPadding (content : Text) (p : Int) : Option Text :=
   if p = -2147483648 then none
-  else
-    let width := p.natAbs
-    if utf8Len content ≥ width then some content
-    else if width > 65535 then none
-    else if p > 0 then some (spaces (width - content.length) ++ content)
-    else some (content ++ spaces (width - content.length))
+  else if p.natAbs ≤ utf8Len content then some content
+  else if 65535 < p.natAbs then none
+  else if 0 < p then some (spaces (p.natAbs - content.length) ++ content)
+  else some (content ++ spaces (p.natAbs - content.length))
 
 def renderSeg (ev : Event) : Segment → Option Text
   | .lit s => some s
